@@ -3,5 +3,7 @@ CONSTANTS
   MaxMembers = 3
   Payloads = {0, 1, 2}
   MaxTrail = 2
-INVARIANTS TypeOK C07_NoSilentCorruption C07_Cut C07_Prefix C08_Concat C08_MemberEnd
+  SizeMod = 2
+  DevSizeNoWrap = FALSE
+INVARIANTS TypeOK C07_NoSilentCorruption C07_Cut C07_Prefix C08_Concat C08_MemberEnd C06_ValidAccepted
 CHECK_DEADLOCK FALSE
